@@ -15,10 +15,12 @@ Plan gen_lockstep(uint64_t seed, int tier, int flavour) {
   int ndec = (int)r.range(1, kind == K_SINGLE ? 3 : 2);
   for (int i = 0; i < ndec; i++) p.ops.push_back(mkop("DECNEW", {r.range(0, 4), r.range(0, 1), r.chance(0.5) ? -1 : r.range(0, host), r.range(0, 2)}));
   auto &doms = enc_ctl_domains();
+  int minfi = 0;   // generator's view of the expert frame duration (frames shorter than it are refused)
   auto push_ctl = [&]() {
     const CtlDom &d = doms[r.range(0, (int64_t)doms.size() - 1)];
     int v = d.legal[r.range(0, (int64_t)d.legal.size() - 1)];
-    if (d.req == OPUS_SET_BITRATE_REQUEST && r.chance(0.4)) v = (int)r.range(500, 512000);
+    if (d.req == OPUS_SET_BITRATE_REQUEST && r.chance(0.5)) v = r.chance(0.6) ? (int)r.range(500, 40000) : (int)r.range(500, 512000);
+    if (d.req == OPUS_SET_EXPERT_FRAME_DURATION_REQUEST) minfi = v == 5000 ? 0 : v - 5001;
     p.ops.push_back(mkop("CTL", {d.req, v}));
   };
   auto push_src = [&]() {
@@ -28,11 +30,14 @@ Plan gen_lockstep(uint64_t seed, int tier, int flavour) {
   };
   int nctl0 = (int)r.range(0, 5);
   for (int i = 0; i < nctl0; i++) push_ctl();
+  if (r.chance(0.5)) p.ops.push_back(mkop("CTL", {11002, r.pick({1000, 1000, 1001, 1001, 1002, -1000})}));
   push_src();
   int nfr = (int)(tier ? r.range(30, 200) : r.range(8, 50));
   // frame index distribution: runs of one duration (mode history needs >=10 ms runs)
   int fidx = r.weighted({2, 2, 4, 8, 3, 3, 1, 1, 1});
-  int mtu = r.pick({1500, 1500, 1500, 1276, 1275, 400, 100, 50, 20, 8, 4, 3, 2, 1});
+  int ns = kind == K_SINGLE ? 1 : std::max(1, l.ch / 2);
+  int mtu = kind == K_SINGLE ? r.pick({1500, 1500, 1500, 1276, 1275, 400, 100, 50, 20, 8, 4, 3, 2, 1})
+                             : r.pick({4000, 1500, 1500, 1000, 400, 100 * ns, 20 * ns, 4 * ns, 3 * ns, 2 * ns, 2 * ns - 1, 1});
   double pctl = r.pick({0.0, 0.1, 0.3, 0.6}), pmtu = r.pick({0.0, 0.05, 0.3});
   if (flavour == 1) { pmtu = r.pick({0.1, 0.3, 0.6}); }
   for (int i = 0; i < nfr; i++) {
@@ -42,6 +47,7 @@ Plan gen_lockstep(uint64_t seed, int tier, int flavour) {
     if (r.chance(pmtu)) mtu = flavour == 1 ? (r.chance(0.4) ? (int)r.range(1, 10) : (int)r.range(1, 4000))
                                            : r.pick({1, 2, 3, 4, 8, 20, 50, 100, 1275, 1276, 1500, (int)r.range(1, 1500)});
     int fi = fidx;
+    if (fi < minfi && r.chance(0.9)) fi = minfi;
     if (r.chance(0.02)) fi = (int)r.range(9, 12);  // illegal frame size shapes
     p.ops.push_back(mkop("ENC", {fi, mtu, r.range(0, 2)}));
   }
